@@ -17,6 +17,7 @@ class Explorer:
     def __init__(self, timeout_ms=20000, max_paths=4000):
         self.timeout_ms = timeout_ms
         self.max_paths = max_paths
+        self.feas_timeout_ms = 1500
         self.worklist = []
         self.seen_obligations = set()
         self.obligations = []
